@@ -79,6 +79,9 @@ BOUNDARY = [
     (['# # #', '', '### ###', '', '## # ##', '', '# ## #'], '<h1>#</h1>\n<h3></h3>\n<h2>#</h2>\n<h1>##</h1>'),
     (['` \xa0 ` and ` \t ` and `  `'], '<p><code>\xa0</code> and <code>\t</code> and <code>  </code></p>'),
     (['\u0661. foo', '', '\uff11) bar', '', 'text', '\u0661. baz'], '<p>\u0661. foo</p>\n<p>\uff11) bar</p>\n<p>text\n\u0661. baz</p>'),
+    # 2.1 / 4.4: blank lines made of white space neither start nor pad an indented code block; 5.1 with tabs: only the marker's tab is a tab stop
+    (['a', '', '      ', 'para', '', '    code', '      ', '', 'b'], '<p>a</p>\n<p>para</p>\n<pre><code>code\n</code></pre>\n<p>b</p>'),
+    (['> > a', '> >\t', '> > b', '', '> >\tx', '', '> c >\td'], '<blockquote>\n<blockquote>\n<p>a</p>\n<p>b</p>\n</blockquote>\n</blockquote>\n<blockquote>\n<blockquote>\n<p>x</p>\n</blockquote>\n</blockquote>\n<blockquote>\n<p>c &gt;\td</p>\n</blockquote>'),
     # GFM tables: empty cells, short rows
     (['|a||c|', '|-|-|-|', '|1||3|', '|x|'],
      '<table>\n<thead>\n<tr>\n<th align="left">a</th>\n<th align="left"></th>\n<th align="left">c</th>\n</tr>\n</thead>\n<tbody>\n<tr>\n<td align="left">1</td>\n'
